@@ -1,3 +1,15 @@
+//@ fn RunFailed::fatal
+//@ spec
+    ensures res.fatal,
+//@ fn RunFailed::retry
+//@ spec
+    ensures !res.fatal,
+//@ fn RunFailed::is_fatal
+//@ spec
+    ensures res == self.fatal,
+//@ fn RunFailed::should_retry
+//@ spec
+    ensures res == !self.fatal,
 //@ fn ValidationReport::process
 //@ spec
     ensures
